@@ -451,6 +451,65 @@ func c13One(res *explore.Result, s *shape, caps []int, listAlts int, verbose boo
 		}
 	}
 
+	// ---- StaticCheck run AGAIN over the same node objects (first pass succeeded): every checker must run again,
+	// see the same child schemas, and an error it returns now must be reported
+	{
+		probe := buildTree(s, caps, listAlts)
+		order := probe.walkOrder()
+		var checkers []int
+		for _, id := range order {
+			if id >= 0 && hasChecker(probe.nodes[id].cap) && (probe.nodes[id].kind == 'N' || probe.nodes[id].kind == 'Z') {
+				checkers = append(checkers, id)
+			}
+		}
+		for _, failAt := range append([]int{-1}, checkers...) {
+			if len(checkers) == 0 {
+				break
+			}
+			t := buildTree(s, caps, listAlts)
+			if pm := guard(func() { _ = parsley.StaticCheck(nil, t.rootN) }); pm != "" {
+				break // reported by the single-pass section
+			}
+			t.rec.log = nil
+			t.rec.failAt = failAt
+			res.Add("transitions", 1)
+			var err parsley.Error
+			if pm := guard(func() { err = parsley.StaticCheck(nil, t.rootN) }); pm != "" {
+				viol("panic:StaticCheck", "second StaticCheck pass panicked: "+pm)
+				break
+			}
+			var wantLog []string
+			wantErr := ""
+			for _, id := range checkers {
+				m := t.nodes[id]
+				var seen []string
+				for _, k := range m.kids {
+					switch {
+					case k.kind == 'T':
+						seen = append(seen, fmt.Sprintf("lit%d", k.id))
+					case (k.kind == 'N' || k.kind == 'Z') && hasChecker(k.cap):
+						seen = append(seen, fmt.Sprintf("s%d", k.id))
+					default:
+						seen = append(seen, "<nil>")
+					}
+				}
+				wantLog = append(wantLog, fmt.Sprintf("check n%d sees %v", id, seen))
+				if id == failAt {
+					wantErr = fmt.Sprintf("check of n%d failed", id)
+					break
+				}
+			}
+			gotErr := ""
+			if err != nil {
+				gotErr = err.Error()
+			}
+			if !reflect.DeepEqual(append([]string{}, t.rec.log...), append([]string{}, wantLog...)) || gotErr != wantErr {
+				viol("StaticCheck:second-pass", fmt.Sprintf("a second StaticCheck pass over the same tree (failure injected at n%d): checker calls %v error %q; model: %v error %q", failAt, t.rec.log, gotErr, wantLog, wantErr))
+				break
+			}
+		}
+	}
+
 	// ---- Transform: every single failure point among the transformers reached
 	{
 		probe := buildTree(s, caps, listAlts)
